@@ -37,6 +37,31 @@ theorem ekf_eq_linearised (pinv : Mat ℝ p p → Mat ℝ p p)
     simp only [mmul_eq', transpose_eq', madd_eq', msub_eq', eye_eq', hpinv _ hS]
     rw [Matrix.sub_mul, Matrix.one_mul]
 
+/-- The same statement as a Kalman filter on a linear-Gaussian system: the EKF posterior of an arbitrary
+system is the exact Kalman posterior of its linearisation
+`x' = f(x̂,u) + A (x − x̂) + w`, `y = g(x̂⁻,u) + C (x' − x̂⁻) + v` with `x̂⁻ = f(x̂,u)`,
+`A = ∂f/∂x (x̂,u)`, `C = ∂g/∂x (x̂,u)` (the Jacobian of the observation is taken at the prior mean). -/
+theorem ekf_eq_kf_of_linearisation (pinv : Mat ℝ p p → Mat ℝ p p)
+    (hpinv : ∀ S : Matrix (Fin p) (Fin p) ℝ, IsUnit S.det → pinv S = S⁻¹)
+    (f : (Fin n → ℝ) → (Fin m → ℝ) → Fin n → ℝ) (g : (Fin n → ℝ) → (Fin m → ℝ) → Fin p → ℝ)
+    (jf : (Fin n → ℝ) → (Fin m → ℝ) → Matrix (Fin n) (Fin n) ℝ)
+    (jg : (Fin n → ℝ) → (Fin m → ℝ) → Matrix (Fin p) (Fin n) ℝ)
+    (u : Fin m → ℝ) (y : Fin p → ℝ) (Q : Matrix (Fin n) (Fin n) ℝ) (R : Matrix (Fin p) (Fin p) ℝ)
+    (x : Fin n → ℝ) (P : Matrix (Fin n) (Fin n) ℝ)
+    (hP : P.PosSemidef) (hQ : Q.PosSemidef) (hR : R.PosDef) :
+    let po := ekf pinv ⟨⟨f, g, jf, jg⟩, u, y, Q, R⟩ ⟨x, P⟩
+    let b := kalman (jf x u) (0 : Matrix (Fin n) (Fin m) ℝ) (jg x u) (0 : Matrix (Fin p) (Fin m) ℝ)
+      (f x u - jf x u *ᵥ x) (g (f x u) u - jg x u *ᵥ f x u) Q R x P u y
+    po.x = b.mean ∧ po.P = b.cov := by
+  intro po b
+  have h := ekf_eq_linearised pinv hpinv f g jf jg u y Q R x P hP hQ hR
+  have e1 : jf x u *ᵥ x + (0 : Matrix (Fin n) (Fin m) ℝ) *ᵥ u + (f x u - jf x u *ᵥ x) = f x u := by
+    rw [Matrix.zero_mulVec, add_zero, add_sub_cancel]
+  have e2 : jg x u *ᵥ f x u + (0 : Matrix (Fin p) (Fin m) ℝ) *ᵥ u + (g (f x u) u - jg x u *ᵥ f x u) = g (f x u) u := by
+    rw [Matrix.zero_mulVec, add_zero, add_sub_cancel]
+  simp only [b, kalman, e1, e2]
+  exact h
+
 /-- **EKF = KF on linear-Gaussian systems.** For every affine system, every prior `(x, P)` with `P ⪰ 0`,
 every `Q ⪰ 0`, `R ≻ 0`, all dimensions and all inputs / measurements, one EKF step returns exactly the mean
 and covariance of the Kalman predict-then-update posterior. -/
@@ -63,6 +88,15 @@ theorem ekf_cov_psd (pinv : Mat ℝ p p → Mat ℝ p p)
     Matrix.PosSemidef (ekf pinv ⟨⟨f, g, jf, jg⟩, u, y, Q, R⟩ ⟨x, P⟩).P := by
   rw [(ekf_eq_linearised pinv hpinv f g jf jg u y Q R x P hP hQ hR).2]
   exact kfStep_cov_psd _ _ _ _ _ hP hQ hR
+
+/-- the Jacobians carried by `affSys` are exact: an affine system is its own linearisation at every point -/
+theorem affSys_is_own_linearisation (A : Matrix (Fin n) (Fin n) ℝ) (B : Matrix (Fin n) (Fin m) ℝ)
+    (C : Matrix (Fin p) (Fin n) ℝ) (D : Matrix (Fin p) (Fin m) ℝ) (c1 : Fin n → ℝ) (c2 : Fin p → ℝ)
+    (x d : Fin n → ℝ) (u : Fin m → ℝ) :
+    (affSys A B C D c1 c2).f (x + d) u = (affSys A B C D c1 c2).f x u + (affSys A B C D c1 c2).jf x u *ᵥ d ∧
+    (affSys A B C D c1 c2).g (x + d) u = (affSys A B C D c1 c2).g x u + (affSys A B C D c1 c2).jg x u *ᵥ d := by
+  simp only [affSys, mulVec_eq', vadd_eq, Matrix.mulVec_add]
+  constructor <;> abel
 
 /-- **Histories.** A run of any length of EKF calls on a (possibly time-varying) linear-Gaussian system,
 each call receiving the previous posterior, equals the Kalman filter run; and the covariance stays
@@ -156,5 +190,185 @@ theorem ukf_run_eq_kf_run (pinv : Mat ℝ p p → Mat ℝ p p)
       rw [h1.1, h1.2]
     have := ih (fun l' hl' => hs l' (by simp [hl'])) (l.kalman b) (l.kalman_cov_psd hl hb)
     simpa only [runUKF, kalmanRun, List.map_cons, List.foldl_cons, hpost] using this
+
+/-- **UKF covariance is valid whenever the centre weight is non-negative** (`k ≥ 0`, `n + k > 0`), for an
+arbitrary non-linear system: the returned covariance is symmetric positive semidefinite. Nothing is assumed
+about the prior covariance or the first square root. -/
+theorem ukf_cov_psd (pinv : Matrix (Fin p) (Fin p) ℝ → Matrix (Fin p) (Fin p) ℝ)
+    (hpinv : ∀ S : Matrix (Fin p) (Fin p) ℝ, IsUnit S.det → pinv S = S⁻¹)
+    (msqrt : Matrix (Fin n) (Fin n) ℝ → Matrix (Fin n) (Fin n) ℝ)
+    (hsqrt : ∀ M : Matrix (Fin n) (Fin n) ℝ, M.PosSemidef → msqrt M * (msqrt M)ᵀ = M)
+    (kk : ℝ) (hk0 : 0 ≤ kk) (hn : 0 < (n : ℝ) + kk)
+    (f : (Fin n → ℝ) → (Fin m → ℝ) → Fin n → ℝ) (g : (Fin n → ℝ) → (Fin m → ℝ) → Fin p → ℝ)
+    (jf : (Fin n → ℝ) → (Fin m → ℝ) → Matrix (Fin n) (Fin n) ℝ)
+    (jg : (Fin n → ℝ) → (Fin m → ℝ) → Matrix (Fin p) (Fin n) ℝ)
+    (u : Fin m → ℝ) (y : Fin p → ℝ) (Q : Matrix (Fin n) (Fin n) ℝ) (R : Matrix (Fin p) (Fin p) ℝ)
+    (x : Fin n → ℝ) (P : Matrix (Fin n) (Fin n) ℝ) (hQ : Q.PosSemidef) (hR : R.PosDef) :
+    Matrix.PosSemidef (ukf pinv msqrt kk ⟨⟨f, g, jf, jg⟩, u, y, Q, R⟩ ⟨x, P⟩).P := by
+  have ha : 0 ≤ w0 n kk := by simp only [w0, k_real]; exact div_nonneg hk0 hn.le
+  have hb : 0 ≤ wr n kk := by simp only [wr, k_real]; positivity
+  have h2b : 2 * wr n kk * ((n : ℝ) + kk) = 1 := by
+    simp only [wr, k_real]; field_simp; push_cast; ring
+  simp only [ukf, MemoV.fn_of, MemoM.mfn_of', sigmaPoints_eq, cov_eq_covM, madd_eq', dev_sig, mmul_eq',
+    msub_eq', transpose_eq']
+  -- E1 = deviations of the propagated first sigma set, E2 = deviations of the observed second sigma set;
+  -- the second set's own deviations are `devSig L2`
+  generalize Sigma.dev _ (Sigma.map (fun pt => f pt u) _) = E1
+  generalize Sigma.dev _ (Sigma.map (fun pt => g pt u) _) = E2
+  have hPm : (Q + covM (w0 n kk) (wr n kk) E1 E1).PosSemidef := hQ.add (covM_self_psd _ _ ha hb E1)
+  set Pm := Q + covM (w0 n kk) (wr n kk) E1 E1
+  have hL2 := hsqrt _ (hPm.smul hn.le)
+  set L2 := msqrt (((n : ℝ) + kk) • Pm)
+  have hss : covM (w0 n kk) (wr n kk) (devSig L2) (devSig L2) = Pm := by
+    have h : covM (w0 n kk) (wr n kk) (devSig L2) (devSig L2) = (2 * wr n kk) • (L2 * L2ᵀ) := cov_devSig _ _ L2 L2
+    rw [h, hL2, smul_smul, h2b, one_smul]
+  have hPy : (R + covM (w0 n kk) (wr n kk) E2 E2).PosDef := hR.add_posSemidef (covM_self_psd _ _ ha hb E2)
+  have hS := PosDef.isUnit_det' hPy
+  have hsym : (R + covM (w0 n kk) (wr n kk) E2 E2)ᵀ = R + covM (w0 n kk) (wr n kk) E2 E2 := hPy.isHermitian
+  have key := schur_cov_psd (w0 n kk) (wr n kk) ha hb (devSig L2) E2 hR
+  rw [hss] at key
+  rw [hpinv _ hS, Matrix.nonsing_inv_mul_cancel_right _ _ hS, Matrix.transpose_mul, Matrix.transpose_nonsing_inv, hsym,
+    ← Matrix.mul_assoc]
+  exact key
+
+/-- **What "the Kalman posterior" means without measure theory**: among all linear updates
+`x⁺ = x⁻ + G (y − ŷ)`, whose error covariance is `(1 − G C) P⁻ (1 − G C)ᵀ + G R Gᵀ`, the covariance returned by
+the Kalman recursion (hence by EKF / UKF on linear systems) is attained at the Kalman gain and is the smallest
+in the Loewner order: the difference is `(G − K) S (G − K)ᵀ ⪰ 0`. -/
+theorem kalman_cov_is_minimal (A : Matrix (Fin n) (Fin n) ℝ) (C : Matrix (Fin p) (Fin n) ℝ)
+    (xm : Fin n → ℝ) (ym y : Fin p → ℝ) (Q : Matrix (Fin n) (Fin n) ℝ) (R : Matrix (Fin p) (Fin p) ℝ)
+    (P : Matrix (Fin n) (Fin n) ℝ) (hP : P.PosSemidef) (hQ : Q.PosSemidef) (hR : R.PosDef)
+    (G : Matrix (Fin n) (Fin p) ℝ) :
+    let Pm := A * P * Aᵀ + Q
+    let K := Pm * Cᵀ * (C * Pm * Cᵀ + R)⁻¹
+    updateCov Pm C R K = (kfStep A C xm ym Q R P y).cov ∧
+    (updateCov Pm C R G - (kfStep A C xm ym Q R P y).cov).PosSemidef := by
+  intro Pm K
+  have hPm : Pm.PosSemidef := predCov_psd hP hQ
+  have hSpd := innovCov_pd (C := C) hPm hR
+  constructor
+  · simp only [updateCov, kfStep, K]
+    exact (joseph_identity Pm C R (PosDef.isUnit_det' hSpd)).symm
+  · have h := updateCov_sub_kalman Pm C R hPm hR G
+    simp only [kfStep]
+    rw [h]
+    have := hSpd.posSemidef.mul_mul_conjTranspose_same (G - Pm * Cᵀ * (C * Pm * Cᵀ + R)⁻¹)
+    rwa [conjTranspose_eq_transpose_of_trivial] at this
+
+/-! ## Particle filter: the deterministic skeleton (the random draws are inputs) -/
+
+section PF
+variable {N : Nat}
+
+/-- **Importance weights.** `relative_likelihood` returns, for every particle,
+`exp(−½ eᵢᵀ R⁻¹ eᵢ) / Σⱼ exp(−½ eⱼᵀ R⁻¹ eⱼ)` with `eᵢ = y − g(xᵢ,u)` (the Gaussian likelihood of `y`, the normalising
+constant `lz` and the max-shift of the softmax cancel); the weights are positive and sum to one. -/
+theorem pf_weights (Rinv : Matrix (Fin p) (Fin p) ℝ) (lz : ℝ)
+    (f : (Fin n → ℝ) → (Fin m → ℝ) → Fin n → ℝ) (g : (Fin n → ℝ) → (Fin m → ℝ) → Fin p → ℝ)
+    (jf : (Fin n → ℝ) → (Fin m → ℝ) → Matrix (Fin n) (Fin n) ℝ)
+    (jg : (Fin n → ℝ) → (Fin m → ℝ) → Matrix (Fin p) (Fin n) ℝ)
+    (u : Fin m → ℝ) (y : Fin p → ℝ) (Q : Matrix (Fin n) (Fin n) ℝ) (R : Matrix (Fin p) (Fin p) ℝ)
+    (xp : Fin N → Fin n → ℝ) (hN : 0 < N) :
+    let w := (pfWeights Rinv lz ⟨⟨f, g, jf, jg⟩, u, y, Q, R⟩ xp).fn
+    let ll : Fin N → ℝ := fun i => -(1 / 2 * ((y - g (xp i) u) ⬝ᵥ Rinv *ᵥ (y - g (xp i) u)))
+    (∀ i, w i = Real.exp (ll i) / ∑ j, Real.exp (ll j)) ∧ (∀ i, 0 < w i) ∧ ∑ i, w i = 1 := by
+  intro w ll
+  have hw : w = (softmax fun i => ll i - lz).fn := by
+    simp only [w, pfWeights, MemoV.fn_of, logLik, q_real, dot_eq, mulVec_eq', vsub_eq, ll]
+    norm_num
+  refine ⟨fun i => ?_, fun i => ?_, ?_⟩
+  · rw [hw, softmax_shift, softmax_fn]
+  · rw [hw]; exact softmax_pos _ i
+  · rw [hw]; exact softmax_sum _ hN
+
+/-- **Resampling rule.** For positive weights that sum to one and a draw `r ∈ (0,1)`:
+`searchsorted(cumsum w, r)` is a valid index (the clamp is inactive) and it equals `i` exactly when
+`cumsum w i − w i < r ≤ cumsum w i` — an interval of length `w i`, so a uniform draw selects particle `i`
+with probability `w i`. A draw `r ≤ 0` selects particle `0`. -/
+theorem pf_resample_rule (w : Fin N → ℝ) (hw : ∀ i, 0 < w i) (hsum : ∑ i, w i = 1) (r : ℝ) (hr1 : r < 1)
+    (hN : 0 < N) :
+    searchsorted (cumsum w) r < N ∧
+    pfIndices (cumsum w) (fun _ : Fin N => r) ⟨0, hN⟩ = searchsorted (cumsum w) r ∧
+    (0 < r → ∀ i : Fin N, searchsorted (cumsum w) r = i.val ↔ cumsum w i - w i < r ∧ r ≤ cumsum w i) ∧
+    (r ≤ 0 → searchsorted (cumsum w) r = 0) := by
+  have hmono := cumsum_mono w fun i => (hw i).le
+  have hle := fun i => searchsorted_le_iff (cumsum w) hmono r i
+  have hlast : searchsorted (cumsum w) r ≤ N - 1 := by
+    have := (hle ⟨N - 1, by omega⟩).2 (by rw [cumsum_last w ⟨N - 1, by omega⟩ (by simp; omega), hsum]; exact hr1.le)
+    simpa using this
+  refine ⟨by omega, ?_, ?_, ?_⟩
+  · simp only [pfIndices]; omega
+  · intro hr0 i
+    rcases Nat.eq_zero_or_pos i.val with h0 | hpos
+    · rw [h0, cumsum_zero w i h0, sub_self]
+      constructor
+      · intro h; exact ⟨hr0, by rw [← cumsum_zero w i h0]; exact (hle i).1 (by omega)⟩
+      · intro h
+        have := (hle i).2 (by rw [cumsum_zero w i h0]; exact h.2)
+        omega
+    · have hi := i.isLt
+      set j : Fin N := ⟨i.val - 1, by omega⟩ with hj
+      have hs := cumsum_succ w j i (by simp [hj]; omega)
+      rw [hs, add_sub_cancel_right]
+      have hjle := hle j
+      constructor
+      · intro h
+        refine ⟨?_, by rw [← hs]; exact (hle i).1 (by omega)⟩
+        by_contra hc
+        rw [not_lt] at hc
+        have := hjle.2 hc
+        simp only [hj] at this
+        omega
+      · rintro ⟨h1, h2⟩
+        have h3 := (hle i).2 (by rw [hs]; exact h2)
+        have h4 : ¬ searchsorted (cumsum w) r ≤ j.val := fun hh => absurd (hjle.1 hh) (not_le.mpr h1)
+        simp only [hj] at h4
+        omega
+  · intro hr0
+    have := (hle ⟨0, hN⟩).2 (by rw [cumsum_zero w ⟨0, hN⟩ rfl]; exact hr0.trans (hw _).le)
+    simpa using this
+
+/-- **PF output.** The particles entering the moments are propagated prior particles `f(xp (idx j), u)`
+(resampling picks existing particles), the mean is their average, and the covariance
+`Q + mean((xr − x)(xr − x)ᵀ)` is symmetric positive semidefinite — for every system, every draw. -/
+theorem pf_cov_psd (pinv : Mat ℝ p p → Mat ℝ p p) (lz : ℝ)
+    (f : (Fin n → ℝ) → (Fin m → ℝ) → Fin n → ℝ) (g : (Fin n → ℝ) → (Fin m → ℝ) → Fin p → ℝ)
+    (jf : (Fin n → ℝ) → (Fin m → ℝ) → Matrix (Fin n) (Fin n) ℝ)
+    (jg : (Fin n → ℝ) → (Fin m → ℝ) → Matrix (Fin p) (Fin n) ℝ)
+    (u : Fin m → ℝ) (y : Fin p → ℝ) (Q : Matrix (Fin n) (Fin n) ℝ) (R : Matrix (Fin p) (Fin p) ℝ)
+    (xp : Fin N → Fin n → ℝ) (r : Fin N → ℝ) (hN : 0 < N) (hQ : Q.PosSemidef) :
+    ∃ idx : Fin N → Fin N,
+      (pf hN pinv lz ⟨⟨f, g, jf, jg⟩, u, y, Q, R⟩ xp r).x = (fun a => (∑ j, f (xp (idx j)) u a) / N) ∧
+      Matrix.PosSemidef (pf hN pinv lz ⟨⟨f, g, jf, jg⟩, u, y, Q, R⟩ xp r).P := by
+  simp only [pf, MemoV.fn_of, MemoM.mfn_of]
+  exact ⟨_, pfMoments_x Q _, pfMoments_P_psd hQ _⟩
+
+end PF
+
+/-! ## Non-vacuity: the hypotheses are satisfiable by non-trivial values -/
+
+/-- the kernel contracts (`pinv`, `msqrt`) can be met in every dimension -/
+example : (∃ pinv : Matrix (Fin p) (Fin p) ℝ → Matrix (Fin p) (Fin p) ℝ, ∀ S, IsUnit S.det → pinv S = S⁻¹) ∧
+    (∃ msqrt : Matrix (Fin n) (Fin n) ℝ → Matrix (Fin n) (Fin n) ℝ, ∀ M, M.PosSemidef → msqrt M * (msqrt M)ᵀ = M) :=
+  ⟨exists_pinv p, exists_msqrt n⟩
+
+/-- a non-trivial valid call: non-symmetric `A`, `C ≠ 0`, identity noise covariances -/
+example : ∃ l : LinStep 2 1 1, l.ok ∧ l.A ≠ l.Aᵀ ∧ l.C ≠ 0 := by
+  refine ⟨⟨!![1, 1; 0, 1], !![0; 1], !![1, 0], !![0], ![0, 0], ![0], ![1], ![2], 1, 1⟩,
+    ⟨PosSemidef.one, PosDef.one⟩, ?_, ?_⟩
+  · intro h
+    have := congrFun (congrFun h 0) 1
+    simp at this
+  · intro h
+    have := congrFun (congrFun h 0) 0
+    simp at this
+
+/-- a valid prior and admissible sigma-point parameters (`k = 1 ≥ 0`, and `k = -1/2 > -n` for `n = 2`) -/
+example : (1 : Matrix (Fin 2) (Fin 2) ℝ).PosSemidef ∧ (0:ℝ) ≤ 1 ∧ (0:ℝ) < (2:ℕ) + 1 ∧ -((2:ℕ):ℝ) < -1/2 :=
+  ⟨PosSemidef.one, by norm_num, by norm_num, by norm_num⟩
+
+/-- admissible weights and draw for `pf_resample_rule` -/
+example : ∃ w : Fin 2 → ℝ, (∀ i, 0 < w i) ∧ ∑ i, w i = 1 ∧ (3/4 : ℝ) < 1 :=
+  ⟨![1/4, 3/4], by intro i; fin_cases i <;> norm_num, by simp [Fin.sum_univ_two]; norm_num, by norm_num⟩
 
 end PP.Filter
